@@ -519,6 +519,35 @@ func (p *Program) errEdge(ifi *ssa.If) int {
 	return -1
 }
 
+// definitelyError: v is an error value that cannot be nil — constructed on the spot (fmt.Errorf,
+// errors.New, a wrap of another error), a concrete value boxed into the interface, or a package-level
+// sentinel. Returning it is an error exit just like the true edge of `err != nil`.
+func definitelyError(v ssa.Value) bool {
+	if v == nil || !isErrorType(v.Type()) {
+		return false
+	}
+	switch x := v.(type) {
+	case *ssa.Call:
+		f := x.Call.StaticCallee()
+		if f == nil || f.Pkg == nil {
+			return false
+		}
+		switch f.Pkg.Pkg.Path() {
+		case "fmt":
+			return f.Name() == "Errorf"
+		case "errors":
+			return f.Name() == "New"
+		}
+		return false
+	case *ssa.MakeInterface:
+		return true
+	case *ssa.UnOp:
+		_, isGlobal := x.X.(*ssa.Global)
+		return isGlobal && x.Op == token.MUL
+	}
+	return false
+}
+
 func isErrorType(t types.Type) bool {
 	return t != nil && types.Identical(t, types.Universe.Lookup("error").Type())
 }
@@ -564,6 +593,10 @@ func (p *Program) EscapesWithout(fn *ssa.Function, hit func(ssa.Instruction) boo
 			}
 			switch t := in.(type) {
 			case *ssa.Return:
+				if o.skipErrEdges && len(t.Results) > 0 && definitelyError(RetVal(t, len(t.Results)-1)) {
+					stopped = true // an error exit: the return of an error constructed on the spot or of a sentinel
+					break
+				}
 				return t
 			case *ssa.Panic:
 				if o.panicIsExit {
